@@ -51,8 +51,11 @@ def generate(seed, tier):
             ops.append({"op": "reinit", "sub": P.s64(r)})
         elif m < 0.8:
             ops.append({"op": "contract"})
-        elif m < 0.9:
+        elif m < 0.87:
             ops.append({"op": "caller_writes_module", "seed": P.s64(r)})
+        elif m < 0.93:
+            # another state of the same class comes to life (other sizes): the first must not notice
+            ops.append({"op": "construct_other", "nv": r.randint(1, 3), "nh": r.randint(1, 4), "route": r.choice(["sizes", "module"]), "sub": P.s64(r)})
         else:
             ops.append({"op": "fit_without_bases", "sub": P.s64(r)})
     ops.append({"op": "contract"})
@@ -191,6 +194,7 @@ def execute(plan):
                 elif aux_expect["v"] is not None and not torch.equal(state.rbm_ph.aux_bias.data, aux_expect["v"]):
                     run.violate("20-auxbias", f"phase network's auxiliary bias is not zero ({tag})", **detail)
 
+        others = []
         contract_tag = "construct"
         phase_is_copy = {"v": c["route"] == "module"}
         for j, op in enumerate(plan["ops"]):
@@ -237,6 +241,24 @@ def execute(plan):
                 run.fault("alias", "module")
                 contract_tag = "later"
                 trace.append("W")
+            elif kind == "construct_other":
+                before = params_snapshot(state)
+                rng.stream(op["sub"])
+                try:
+                    if op["route"] == "module":
+                        mod2 = PurificationRBM(op["nv"], op["nh"], 1, gpu=False) if c["type"] == "density" else BinaryRBM(op["nv"], op["nh"], gpu=False)
+                        others.append(new_state(c["type"], op["nv"], None, None, module=mod2))
+                    else:
+                        others.append(new_state(c["type"], op["nv"], op["nh"], 1 if c["type"] == "density" else None))
+                except Exception as exc:  # noqa: BLE001
+                    run.lib_exception(exc, "constructing a second state", type=c["type"])
+                    continue
+                if not snapshots_equal(before, params_snapshot(state)):
+                    run.violate("20-bystander", "constructing another state changed this state's parameters", type=c["type"])
+                if c["route"] == "module" and state.rbm_am is not module:
+                    run.violate("20-bystander", "constructing another state replaced this state's amplitude network", type=c["type"])
+                contract("later" if contract_tag == "later" else contract_tag)
+                trace.append("O")
             elif kind == "fit_without_bases":
                 if c["type"] == "positive":
                     continue
